@@ -211,9 +211,10 @@ Definition file_pg (s : st) (pgno : N) : option pg := nth_error (dbfile s) (N.to
 Fixpoint upfrom (a : N) (n : nat) : list N :=
   match n with O => [] | S n' => a :: upfrom (a + 1) n' end.
 
-(* a page the database gains in this transaction that was never written through LiteFS: SQLite leaves out a page it
-   allocated and freed again (a free-list leaf), the file system fills the gap with zeros *)
-Definition unwritten (s : st) (p : N) : bool := (pageN s <? p) && negb (existsb (N.eqb p) (dirty s)).
+(* a page the database gains in this transaction that was never written through LiteFS - no checksum is kept for it:
+   SQLite leaves out a page it allocated and freed again (a free-list leaf), the file system fills the gap with zeros.
+   (Not "not in the dirty set": a transaction LiteFS rolled back itself leaves its pages listed there.) *)
+Definition unwritten (s : st) (p : N) : bool := (pageN s <? p) && (db_page_chk s p =? 0).
 
 (* the sorted page list of CommitJournal: the dirty pages within the new size, and every page between the old and
    the new size whether written or not *)
